@@ -1,7 +1,7 @@
 #!/usr/bin/env python3
 """Behaviour-preserving changes (produced by independent sub-agents) must not be flagged by any check.
 
-  tools/refaceval.py <N> [rK ...]       reads /tmp/refac/out/<N>/rK.diff
+  tools/refaceval.py <N> [rK ...] [--src DIR] [--prefix P]      reads DIR/<N>/rK.diff (default /tmp/refac/out)
 
 Applies each change in a scratch worktree of /repo, confirms it compiles (also with -tags verif) and passes the
 existing tests, then runs EVERY check's quick tier against it (VERIF_REPO). Stores patch + outcome under
@@ -27,8 +27,16 @@ def sh(cmd, cwd=None, timeout=1800, env=ENV):
 
 
 def main():
+    args = sys.argv[1:]
+    root, prefix = "/tmp/refac/out", ""
+    if "--src" in args:
+        i = args.index("--src"); root = args[i + 1]; del args[i:i + 2]
+    if "--prefix" in args:          # stored as /verif/refactorings/<prefix><N>-rK
+        i = args.index("--prefix"); prefix = args[i + 1]; del args[i:i + 2]
+    sys.argv[1:] = args
     n = sys.argv[1]
-    src = "/tmp/refac/out/%s" % n
+    src = "%s/%s" % (root, n)
+    n = prefix + n
     which = sys.argv[2:] or sorted(f[:-5] for f in os.listdir(src) if f.endswith(".diff"))
     for r in which:
         diff = os.path.join(src, r + ".diff")
